@@ -12,6 +12,10 @@
 #include <fcppt/move_clear.hpp>
 #include <fcppt/algorithm/fold.hpp>
 #include <fcppt/algorithm/map.hpp>
+#include <fcppt/algorithm/map_array.hpp>
+#include <fcppt/algorithm/map_tuple.hpp>
+#include <fcppt/algorithm/loop_break_tuple.hpp>
+#include <fcppt/tuple/invoke.hpp>
 #include <fcppt/algorithm/reverse.hpp>
 #include <fcppt/array/append.hpp>
 #include <fcppt/array/from_range.hpp>
@@ -81,8 +85,9 @@ using opt = fcppt::optional::object<M>;
 using eit = fcppt::either::object<M2, M>;
 using var = fcppt::variant::object<M, M2>;
 
-// moves its argument on; usable only with rvalues of a move-only type
-auto const fwd = [](auto &&x) { return std::remove_cvref_t<decltype(x)>(std::move(x)); };
+// builds its result from the element with the category it received: for a move-only type this
+// compiles only if the element of the rvalue argument arrives as an rvalue (a copy is a deleted function)
+auto const fwd = [](auto &&x) { return std::remove_cvref_t<decltype(x)>(std::forward<decltype(x)>(x)); };
 
 template <typename X>
 void sink(X &&) {}
@@ -164,6 +169,13 @@ void probe()
   using tup = fcppt::tuple::object<M, M2>;
   sink(fcppt::tuple::map(tup{M(1), M2(2)}, fwd));
   sink(fcppt::tuple::push_back(tup{M(1), M2(2)}, M(3)));
+  // extension round: algorithm::map over tuple / array sources, tuple::invoke
+  using tup_mm = fcppt::tuple::object<M, M>;
+  sink(fcppt::algorithm::map<tup_mm>(tup_mm{M(1), M(2)}, fwd));
+  sink(fcppt::algorithm::map<vec>(tup_mm{M(1), M(2)}, fwd));
+  sink(fcppt::algorithm::map<arr2>(arr2{M(1), M(2)}, fwd));
+  sink(fcppt::algorithm::map<vec>(arr2{M(1), M(2)}, fwd));
+  sink(fcppt::tuple::invoke([](M &&x, M &&y) { return std::make_pair(std::move(x), std::move(y)); }, tup_mm{M(1), M(2)}));
   sink(fcppt::record::permute<rec_ba>(rec_ab{label_a{} = M(1), label_b{} = M2(2)}));
   sink(fcppt::record::map(rec_ab{label_a{} = M(1), label_b{} = M2(2)}, fwd));
   sink(fcppt::record::multiply_disjoint(rec_ab{label_a{} = M(1), label_b{} = M2(2)}, rec_c{label_c{} = M(3)}));
